@@ -1,6 +1,7 @@
 package main
 
 import (
+	"runtime/debug"
 	"time"
 	"bytes"
 	"crypto/sha256"
@@ -330,6 +331,26 @@ func newDBWorld(root string, idx int, kek tink.AEAD) (*dbWorld, error) {
 	return w, nil
 }
 
+// valueRes renders a value answer and then wipes the bytes it was handed, as a careful caller
+// does with key material: what a call returns belongs to the caller, and nothing the server
+// holds may change with it.
+func valueRes(sv *api.SecretValue) (res string) {
+	res = fmt.Sprintf("value:%s:%d", hb(sv.Value), sv.Version)
+	// a []byte that cannot be written to (it lies over a string constant, say) is not the
+	// caller's own copy either: the fault becomes a result instead of ending the process
+	old := debug.SetPanicOnFault(true)
+	defer debug.SetPanicOnFault(old)
+	defer func() {
+		if recover() != nil {
+			res = "BADRES:" + hx("the bytes returned are not writable memory (not a copy of the caller's own)")
+		}
+	}()
+	for i := range sv.Value {
+		sv.Value[i] ^= 0xa5
+	}
+	return res
+}
+
 func (w *dbWorld) close() { os.RemoveAll(filepath.Dir(w.dir)) }
 
 // newTwin opens a second server on a copy of w's database file as it is now.  After a call
@@ -433,7 +454,7 @@ func (w *dbWorld) exec1(op dbOp) (res string) {
 		if sv == nil {
 			return "BADRES:" + hx("nil value and nil error")
 		}
-		return fmt.Sprintf("value:%s:%d", hb(sv.Value), sv.Version)
+		return valueRes(sv)
 	case "getcond":
 		sv, err := w.d.GetConditional(c, op.name, v)
 		if err != nil {
@@ -442,7 +463,7 @@ func (w *dbWorld) exec1(op dbOp) (res string) {
 		if sv == nil {
 			return "BADRES:" + hx("nil value and nil error")
 		}
-		return fmt.Sprintf("value:%s:%d", hb(sv.Value), sv.Version)
+		return valueRes(sv)
 	case "getver":
 		sv, err := w.d.GetVersion(c, op.name, v)
 		if err != nil {
@@ -451,7 +472,7 @@ func (w *dbWorld) exec1(op dbOp) (res string) {
 		if sv == nil {
 			return "BADRES:" + hx("nil value and nil error")
 		}
-		return fmt.Sprintf("value:%s:%d", hb(sv.Value), sv.Version)
+		return valueRes(sv)
 	case "put":
 		// the caller's buffer is the caller's: it is overwritten as soon as Put returns
 		buf := append(make([]byte, 0, len(op.val)+8), op.val...)
